@@ -287,6 +287,9 @@ def run_end_to_end(spec, stats):
         for r in chk.stored[vi]:
             hist.setdefault(r["geographic_unit_fips"], []).append(dict(r, t=vi))
     stats.probes["end_to_end_versions_read:%d" % min(len(used), 6)] += 1
+    if not hist:
+        stats.probes["end_to_end_all_stored_versions_empty"] += 1
+        return viol  # every stored version was an empty table (polls before the first delivery): no unit history exists
     try:
         out = h.compute_versioned_margin_estimate()
     except Exception as e:  # noqa: BLE001
